@@ -50,6 +50,7 @@ THEOREMS = [
     "Nix.C09.compound_exact",
     "Nix.C09.si_exact",
     "Nix.C09.sanitizer_atoms",
+    "Nix.C09.sanitizer_compounds",
     "Nix.C09.sanitizer_blanks",
     "Nix.C09.sanitizer_micro_spellings",
 ]
